@@ -154,6 +154,9 @@ Definition arith_ty (o : aop) (l r : ty) : ty :=
 
 Definition intdiv_ty (l r : ty) : ty := if is_unsigned l || is_unsigned r then TInt U64 else TInt I64.
 
+(* ConvertToChar outcome of Coalesce.Type: DOUBLE when one side is a double and neither is text, LONGTEXT otherwise *)
+Definition char_case (a b : ty) : ty :=
+  if match a, b with TDbl, _ | _, TDbl => true | _, _ => false end && negb (is_text a) && negb (is_text b) then TDbl else TStr.
 Definition coalesce_ty (a b : ty) : ty :=
   match b with TNull => a | _ =>
   match a with
@@ -164,14 +167,13 @@ Definition coalesce_ty (a b : ty) : ty :=
   | _ =>
   if ty_equals a b then a
   else if (is_signed a && is_unsigned b) || (is_unsigned a && is_signed b) then TDec 20 0
-  else if negb (is_number a) || negb (is_number b) then
-    (if match a, b with TDbl, TDbl => true | _, _ => false end then TDbl else TStr)
+  else if negb (is_number a) || negb (is_number b) then char_case a b
   else if is_decimal a || is_decimal b then
     (if match a, b with TDbl, _ | _, TDbl => true | _, _ => false end then TDbl
      else if is_decimal b then b else if is_decimal a then a else TDec 10 0)
   else if is_unsigned a && is_unsigned b then (if is_k a U64 || is_k b U64 then TInt U64 else TInt U32)
   else if is_integer a && is_integer b then (if is_k a I64 || is_k b I64 then TInt I64 else TInt I32)
-  else TStr
+  else char_case a b
   end end.
 
 Definition greatest_ty (a b : ty) : ty :=
@@ -206,7 +208,8 @@ Fixpoint mod_digits (s : schema) (e : expr) : Z * Z :=
   | ELit (VInt z) => (ndig z, 0)
   | ELit (VDec m sc) => (ndig (Z.abs m / 10 ^ sc), sc)
   | ELit _ => (0, 0)
-  | ENeg a | ENot a | EIsNull a | EUpper a | ELength a | ESubstr a _ _ => mod_digits s a
+  | ENeg a | ENot a | EIsNull a | EUpper a | ELength a => mod_digits s a
+  | ESubstr a p n => dmax (mod_digits s a) (dmax (ndig p, 0) (ndig n, 0))
   | ECast a t => dmax (mod_digits s a) (match t with CDecimal p sc => (p - sc, sc) | _ => (0, 0) end)
   | EArith _ a b | EIntDiv a b | EMod a b | ECmp _ a b | EAnd a b | EOr a b | ENullIf a b | EIfNull a b | ECoalesce a b
   | EGreatest a b | ELeast a b | EConcat a b => dmax (mod_digits s a) (mod_digits s b)
@@ -505,6 +508,10 @@ Definition case_go (ev : expr -> res) (t : ty) (els : option expr) : list (expr 
         end)
     end.
 
+(* an operand typed unsigned that holds a negative value (see the DIV rule) is outside the model: consumers abstain *)
+Definition bad_unsigned (t : ty) (x : val) : bool :=
+  is_unsigned t && match x with VInt z => z <? 0 | VDec m _ => m <? 0 | _ => false end.
+
 Section Eval.
 Variable s : schema.
 Variable r : row.
@@ -515,7 +522,8 @@ Fixpoint eval (e : expr) : res :=
   | ELit x => Ok x
   | ENeg a => bindr (eval a) (neg_val (type_of s a))
   | EArith o a b => bindr (eval a) (fun x => bindr (eval b) (fun y => arith_val o (arith_ty o (type_of s a) (type_of s b)) x y))
-  | EIntDiv a b => bindr (eval a) (fun x => bindr (eval b) (fun y => intdiv_val (intdiv_ty (type_of s a) (type_of s b)) x y))
+  | EIntDiv a b => bindr (eval a) (fun x => bindr (eval b) (fun y =>
+      if bad_unsigned (type_of s a) x || bad_unsigned (type_of s b) y then Err else intdiv_val (intdiv_ty (type_of s a) (type_of s b)) x y))
   | EMod a b => bindr (eval a) (fun x => bindr (eval b) (fun y => mod_val x y))
   | ECmp o a b => bindr (eval a) (fun x => bindr (eval b) (fun y => cmp_res o x y))
   | EAnd a b => bindr (eval a) (fun x => bindr (eval b) (fun y => and3 x y))
@@ -550,6 +558,7 @@ Fixpoint eval (e : expr) : res :=
       end)
   | EGreatest a b =>
     bindr (eval a) (fun x => bindr (eval b) (fun y =>
+      if negb (is_integer (type_of s a) && is_integer (type_of s b)) then Err else
       match x, y with
       | VNull, _ | _, VNull => Ok VNull
       | VInt p, VInt q => fit I64 (Z.max p q)
@@ -557,12 +566,13 @@ Fixpoint eval (e : expr) : res :=
       end))
   | ELeast a b =>
     bindr (eval a) (fun x => bindr (eval b) (fun y =>
+      if negb (is_integer (type_of s a) && is_integer (type_of s b)) then Err else
       match x, y with
       | VNull, _ | _, VNull => Ok VNull
       | VInt p, VInt q => fit I64 (Z.min p q)
       | _, _ => Err
       end))
-  | ECast a t => bindr (eval a) (cast_val t)
+  | ECast a t => bindr (eval a) (fun x => if bad_unsigned (type_of s a) x then Err else cast_val t x)
   | EConcat a b =>
     bindr (eval a) (fun x => bindr (eval b) (fun y => concat_val x y))
   | EUpper a => bindr (eval a) (fun x => match x with VNull => Ok VNull | VStr b => Ok (VStr (map upper_byte b)) | _ => Err end)
